@@ -7,7 +7,7 @@ from ..mirsym import biomodel, merge
 P0, P1 = ('prop', 'v0'), ('prop', 'v1')
 X = ('var', 'x')
 
-def non_interference(chk, n):
+def non_interference(chk, n, loops=True):
     """E-MIR: two colours; the slice of every kernel result at colour 0 does not depend on the inputs at colour 1"""
     labA = KL.Lab(chk, n, 1, tag='L_'); labB = KL.Lab(chk, n, 1, tag='R_')
     MA, MB = labA.M, labB.M
@@ -19,6 +19,7 @@ def non_interference(chk, n):
             ('eval_af', lambda L, a, b: [a, L.steady, L.cb]), ('eval_ag', lambda L, a, b: [a, L.cb]), ('eval_eu_saturated', lambda L, a, b: [a, b, L.cb]), ('eval_au', lambda L, a, b: [a, b, L.steady, L.cb]),
             ('eval_ew', lambda L, a, b: [a, b, L.steady, L.cb]), ('eval_aw', lambda L, a, b: [a, b, L.cb]), ('eval_neg', lambda L, a, b: [a]), ('eval_imp', lambda L, a, b: [a, b])]
     for name, mk in kern:
+        if not loops and name not in ('eval_ex', 'eval_ax', 'eval_neg', 'eval_imp'): continue
         r1 = labA.run(name, mk(labA, a1, b1)); r2 = labB.run(name, mk(labB, a2, b2))
         v = uni.decide(pre + [low(r1) != low(r2)], 120000); chk.queries += 1
         tv = uni.decide(pre + [r1 != r2], 120000); chk.twin(tv.status == 'sat')
@@ -30,9 +31,9 @@ def non_interference(chk, n):
 def run(chk):
     thorough = chk.tier == 'thorough'
     chk.bounds.update({'E-UNI': 'instances U2, C2, M2 (thorough: U3 shallow): result(state, colour) == explicit semantics on the transition system of that colour, for every colour; then up to 6 (thorough 20) structurally distinct colours per formula are instantiated and model_check_formula is run natively on the fully specified network',
-                       'E-MIR': 'colour non-interference of the kernels with one colour bit, n in {2, 3}', 'outside': 'benchmark models with thousands of colours'})
+                       'E-MIR': 'colour non-interference of the kernels with one colour bit, n = 2 (thorough: n = 3 for the loop-free kernels; the n = 3 loop kernels took > 30 min and are not run)', 'outside': 'benchmark models with thousands of colours'})
     non_interference(chk, 2)
-    if thorough: non_interference(chk, 3)
+    if thorough: non_interference(chk, 3, loops=False)
     core = G.core_plain(['v0', 'v1'])
     rnd = [G.random_formula(chk.rng, 3, ['v0', 'v1']) for _ in range(60 if thorough else 10)]
     forms = core[::1 if thorough else 2] + rnd
